@@ -426,6 +426,13 @@ func threadInfo(fn *ssa.Function) map[Edge]*ssa.BasicBlock {
 				if p, isPhi := x.X.(*ssa.Phi); isPhi && p.Block() == t && x.Block() == t {
 					phi, mode, op = p, "nil", x.Op
 				}
+			} else if x.Op == token.EQL || x.Op == token.NEQ {
+				// a string result variable compared with "": every incoming value is "" or visibly non-empty
+				if s, isS := ConstString(x.Y); isS && s == "" {
+					if p, isPhi := x.X.(*ssa.Phi); isPhi && p.Block() == t && x.Block() == t {
+						phi, mode, op = p, "empty", x.Op
+					}
+				}
 			}
 		}
 		if phi == nil {
@@ -448,6 +455,12 @@ func threadInfo(fn *ssa.Function) map[Edge]*ssa.BasicBlock {
 				if kn {
 					outcome, known = isNil == (op == token.EQL), true
 				}
+			case "empty":
+				if s, isS := ConstString(e); isS {
+					outcome, known = (s == "") == (op == token.EQL), true
+				} else if NonEmptyString(e, 0) {
+					outcome, known = op == token.NEQ, true
+				}
 			}
 			if !known {
 				continue
@@ -463,6 +476,55 @@ func threadInfo(fn *ssa.Function) map[Edge]*ssa.BasicBlock {
 		}
 	}
 	return m
+}
+
+// NonEmptyString: v is a string that cannot be empty: a non-empty constant, a concatenation with one, or
+// fmt.Sprintf / fmt.Errorf(...).Error() of a format that contains literal text.
+func NonEmptyString(v ssa.Value, depth int) bool {
+	if depth > 4 {
+		return false
+	}
+	if s, ok := ConstString(v); ok {
+		return s != ""
+	}
+	switch x := v.(type) {
+	case *ssa.BinOp:
+		if x.Op == token.ADD {
+			return NonEmptyString(x.X, depth+1) || NonEmptyString(x.Y, depth+1)
+		}
+	case *ssa.Call:
+		if f := x.Call.StaticCallee(); f != nil && IsStdFunc(f, "fmt", "Sprintf") && len(x.Call.Args) >= 1 {
+			if format, ok := ConstString(x.Call.Args[0]); ok {
+				// literal text outside verbs
+				lit := false
+				for i := 0; i < len(format); i++ {
+					if format[i] == '%' {
+						i++
+						for i < len(format) && strings.ContainsRune("+-# 0123456789.[]*", rune(format[i])) {
+							i++
+						}
+						if i < len(format) && format[i] == '%' {
+							lit = true
+						}
+						continue
+					}
+					lit = true
+				}
+				return lit
+			}
+		}
+	case *ssa.Phi:
+		if len(x.Edges) == 0 {
+			return false
+		}
+		for _, e := range x.Edges {
+			if e == v || !NonEmptyString(e, depth+1) {
+				return false
+			}
+		}
+		return true
+	}
+	return false
 }
 
 // factPlain: boolean v is known to equal want at the end of block p (plain dominance, no threading),
@@ -1021,6 +1083,94 @@ func Returns(fn *ssa.Function) []*ssa.Return {
 			out = append(out, r)
 		}
 	})
+	return out
+}
+
+// RetPoint is one way of returning from a function. A return whose block only joins result variables
+// (`res := ..; if ..{res = ..}; return res`) is split into one RetPoint per incoming edge, with the phis
+// of the join resolved for that edge, so that single-exit code reads like early returns.
+type RetPoint struct {
+	Ret     *ssa.Return
+	Results []ssa.Value
+	At      *ssa.BasicBlock // facts that hold at the end of this block hold on this way out
+	Join    *ssa.BasicBlock // the joining return block At jumps to (nil for a plain return)
+}
+
+// Block is the block at whose end this way of returning is decided.
+func (r *RetPoint) Block() *ssa.BasicBlock { return r.At }
+
+// Anchor is the instruction that ends this way out: the return itself, or the jump into the join.
+func (r *RetPoint) Anchor() ssa.Instruction {
+	if r.At == r.Ret.Block() || len(r.At.Instrs) == 0 {
+		return r.Ret
+	}
+	return r.At.Instrs[len(r.At.Instrs)-1]
+}
+
+// Pos is the position of the return statement.
+func (r *RetPoint) Pos() token.Pos { return r.Ret.Pos() }
+
+// IsReturnJoin: b does nothing but join values and return them.
+func IsReturnJoin(b *ssa.BasicBlock) bool {
+	if len(b.Instrs) == 0 || len(b.Preds) < 2 {
+		return false
+	}
+	for i, in := range b.Instrs {
+		switch in.(type) {
+		case *ssa.Phi, *ssa.DebugRef:
+		case *ssa.Return:
+			return i == len(b.Instrs)-1
+		default:
+			return false
+		}
+	}
+	return false
+}
+
+func isJumpJoin(b *ssa.BasicBlock) bool {
+	if len(b.Instrs) == 0 || len(b.Preds) < 2 {
+		return false
+	}
+	for i, in := range b.Instrs {
+		switch in.(type) {
+		case *ssa.Phi, *ssa.DebugRef:
+		case *ssa.Jump:
+			return i == len(b.Instrs)-1
+		default:
+			return false
+		}
+	}
+	return false
+}
+
+// ReturnPoints lists the ways of returning from fn (see RetPoint).
+func ReturnPoints(fn *ssa.Function) []*RetPoint {
+	var out []*RetPoint
+	for _, ret := range Returns(fn) {
+		b := ret.Block()
+		if !IsReturnJoin(b) {
+			out = append(out, &RetPoint{Ret: ret, Results: ret.Results, At: b})
+			continue
+		}
+		var expand func(join *ssa.BasicBlock, vals []ssa.Value, depth int)
+		expand = func(join *ssa.BasicBlock, vals []ssa.Value, depth int) {
+			for i, p := range join.Preds {
+				sub := make([]ssa.Value, len(vals))
+				for k, v := range vals {
+					sub[k] = v
+					if phi, ok := v.(*ssa.Phi); ok && phi.Block() == join {
+						sub[k] = phi.Edges[i]
+					}
+				}
+				if depth < 4 && isJumpJoin(p) {
+					expand(p, sub, depth+1)
+					continue
+				}
+				out = append(out, &RetPoint{Ret: ret, Results: sub, At: p, Join: b})
+			}
+		}
+		expand(b, ret.Results, 0)
+	}
 	return out
 }
 
